@@ -197,7 +197,9 @@ def same_label(a, b):
 # case builders
 
 DTYPES = {
-    "float": dict(alpha=[0.0, 1.0, 2.0, -1.0, 0.5, NAN], np=float),
+    # -0.999995, 1.500003, 1e-9 lie within numpy's default isclose tolerances of the numeric sentinels -1, 1.5, 0: labels
+    # next to (but different from) the sentinel must stay labels (seed R7C16)
+    "float": dict(alpha=[0.0, 1.0, 2.0, -1.0, 0.5, NAN, -0.999995, 1.500003, 1e-9], np=float),
     "int": dict(alpha=[0, 1, 2, -1, 5], np=int),
     # "n", "na", "N", "No" are prefixes of the string forms of the sentinels 'nan' / None: narrow string arrays (<U1, <U2)
     # containing them expose comparisons made after truncating the sentinel to the array's item size
